@@ -168,6 +168,11 @@ func RunC17(r *core.Run) {
 		hdrs := idx%2 == 1
 		base := []sipsp.POptFlags{sipsp.POptInputEndF, sipsp.POptTokURIParamF | sipsp.POptInputEndF, sipsp.POptTokQmTermF, sipsp.POptTokSpTermF, 0,
 			sipsp.POptTokCommaTermF, sipsp.POptTokURIParamF, sipsp.POptTokCommaTermF | sipsp.POptInputEndF, sipsp.POptTokSpTermF | sipsp.POptInputEndF}[rr.Intn(9)]
+		if hdrs {
+			// (asking the header-list wrapper for URI-parameter mode is a contradictory flag
+			// combination; what it then does is not stated)
+			base &^= sipsp.POptTokURIParamF
+		}
 		eff := base | sipsp.POptParamSemiSepF
 		if hdrs {
 			eff = base | sipsp.POptParamAmpSepF | sipsp.POptTokURIHdrF
@@ -525,9 +530,11 @@ func RunC17(r *core.Run) {
 					return core.V(fmt.Sprintf("GetViaBrSig(%q) = (%#x,%d) but the branch parameter has no value", via, sig, sl), via, nil)
 				})
 			}
-			if sl != wl || sig != s2 || l2 != wl {
+			_ = wl // (how the "z9hG4bK" cookie is treated - stripped, in which letter case - is the
+			// business of the fingerprint, not of parameter parsing: only the relation is judged)
+			if sl != l2 || sig != s2 {
 				w.Fail("via-branch", func() *core.Violation {
-					return core.V(fmt.Sprintf("GetViaBrSig(%q) = (%#x,%d); the branch value is %q: expected length %d and the same class bits as the bare value (%#x,%d)", via, sig, sl, brVal, wl, s2, l2), via, nil)
+					return core.V(fmt.Sprintf("GetViaBrSig(%q) = (%#x,%d); the branch value is %q: expected the same result as for the bare value, (%#x,%d)", via, sig, sl, brVal, s2, l2), via, nil)
 				})
 			}
 			w.Inc("branches_found")
